@@ -1,5 +1,5 @@
 """C04 — generated text maps into the source span of the construct that generated it."""
-import t2t, corr, semrun, sem
+import t2t, corr, semrun, sem, cref
 
 OBLIGATIONS = ['Yalafi.C04_latexError_anchor', 'Yalafi.C04_restamp']
 
@@ -7,6 +7,8 @@ def judge(case, res):
     fails = []
     if res['outcome'] != 'ok':
         return fails
+    if case.get('kind') == 'cref':
+        return cref.judge_spans(case, res)
     src, txt, pos = case['src'], res['txt'], res['pos']
     if len(txt) != len(pos):
         return fails
@@ -104,17 +106,25 @@ def run(ctx):
         r = gen.R(); gen.render(ast, r)
         cases.append({'src': r.src(), 'opts': {'pack': '*', 'lang': rng.choice(['', 'de'])}, 'multi': False, 'kind': 'repeat',
                       'ast': ast, 'words': r.words, 'spans': r.spans, 'callspans': r.callspans})
+    crefs = [cref.make(rng) for _ in range(n // 10)]
     ctx.stats['_rule'] = ('well-formed G-doc documents; words of macro bodies / optional defaults / theorem titles must map into the span of a use of '
                           'that very macro (repeated uses are generated on purpose); every position-fixed character must map into the source span of a '
                           'construct; non-trivial = output contains generated text')
     results = semrun.run_cases(ctx, cases)
+    # package cleveref (not modelled): repeated references to one label, judged on the implementation only
+    cres = ctx.pmap(t2t.run_case, crefs)
+    for c, r in zip(crefs, cres):
+        ctx.case(c['src'], nontrivial=True); ctx.count('cleveref_docs'); ctx.count('cleveref_outcome_' + r['outcome'])
+        fails = judge(c, r)
+        if fails:
+            ctx.violation(fails[0], src=c['src'], opts=c['opts'], files=c['files'], uses=c['uses'], kind='cref', case=c)
     for c, r in zip(cases, results):
         ngen = sum(1 for t in (r.get('toks') or []) if t[2] and t[3])
         ctx.case(c['src'], nontrivial=ngen > 0)
         ctx.count('outcome_' + r['outcome']); ctx.count('fixed_tokens', ngen); ctx.count('macro_uses', len(c['callspans']))
         fails = judge(c, r)
         if fails:
-            ctx.violation(fails[0], src=c['src'], opts=c['opts'], all=fails[:3])
+            ctx.violation(fails[0], src=c['src'], opts=c['opts'], all=fails[:3], case=c)
         if len(ctx.samples) < 3 and c['callspans']:
             ctx.sample({'src': c['src'][:300], 'uses': c['callspans'][:5]})
     corr.t2t(ctx, cases, results, proj=('outcome', 'toks'), limit=ctx.scale(900, 20000))
@@ -134,5 +144,14 @@ def judge_witness(w):
     return [] if all(a + 1 <= p <= b for p in ps) else ['generated word %r maps to %r outside its use %r' % (w['body_word'], ps, (a + 1, b))]
 
 def replay(data):
-    print('C04 oracles need the AST of the generated document; violation was:', data['violation'].get('what'))
-    return True
+    v = data['violation']
+    c = v.get('case')
+    if not c:
+        print('no stored case; violation was:', v.get('what'))
+        return True
+    if 'uses' in c:
+        c['uses'] = [tuple(u) for u in c['uses']]
+    r = semrun.run_cases_plain([c])[0] if hasattr(semrun, 'run_cases_plain') else t2t.run_case({k: x for k, x in c.items() if k not in ('ast', 'words', 'spans', 'callspans')})
+    fails = judge(c, r)
+    print('\n'.join(fails) if fails else 'ok: %s' % r['outcome'])
+    return not fails
